@@ -37,7 +37,7 @@ func runSmoke(seed uint64) {
 	if got {
 		el := <-bp.queue
 		if !bytes.Equal(el.Contents[0], val) {
-			w.violate("content", "mismatch")
+			w.violate("SMOKE", "content", "mismatch")
 		}
 		_ = bp.p.Put(key, bp.p.ToContentId(key), el.Contents[0])
 		var res any
